@@ -24,12 +24,48 @@ import writer_cases as W  # noqa: E402
 CFG = {"rejects": True, "d11": True, "d12": True}
 
 
+def dtype_change_witness(run):
+    """The recorded finding (KNOWN_FINDINGS.txt key channel-dtype-change; hypothesis dtypes_consistent of
+    Props/C07_read.v write_read, shown necessary there by write_read_needs_one_dtype): the writer accepts a
+    channel written as int32 in one segment and as float64 in the next and emits a file that the format
+    forbids (a channel changing data type); TdmsFile.read then refuses the file."""
+    import io
+    import numpy as np
+    from nptdms import TdmsWriter, TdmsFile, ChannelObject
+    run.count("dtype_change_witness")
+    buf = io.BytesIO()
+    try:
+        with TdmsWriter(buf) as w:
+            w.write_segment([ChannelObject("g", "c", np.array([1, 2], dtype="int32"))])
+            w.write_segment([ChannelObject("g", "c", np.array([0.5], dtype="float64"))])
+    except Exception:       # noqa: BLE001  (a writer that refuses the second call satisfies the property)
+        run.count("dtype_change_witness_refused_by_writer")
+        return
+    case = {"witness": "dtype-change", "hex": buf.getvalue().hex()}
+    try:
+        got = TdmsFile.read(io.BytesIO(buf.getvalue()))["g"]["c"][:]
+        ok = [float(x) for x in got] == [1.0, 2.0, 0.5]
+        actual = repr(got)
+    except Exception as ex:     # noqa: BLE001
+        ok, actual = False, repr(ex)
+    if not ok:
+        run.violation("channel-dtype-change",
+                      "write_segment accepted channel /'g'/'c' as int32 [1, 2] and then as float64 [0.5]; reading the "
+                      "written file gives %s instead of the concatenation of what was written" % actual, case,
+                      expected="[1, 2] ++ [0.5] or a ValueError from the second write_segment", actual=actual)
+
+
 def main():
     run = H.Run("C07")
     run.prove()
     if run.replay:
-        W.process(run, [json.load(open(run.replay))["case"]], "C07")
+        case = json.load(open(run.replay))["case"]
+        if case.get("witness") == "dtype-change":
+            dtype_change_witness(run)
+        else:
+            W.process(run, [case], "C07")
         run.finish()
+    dtype_change_witness(run)
     rng = random.Random(run.seed)
     cases = [W.gen_case(rng, CFG) for _ in range(run.pick(400, 12000))]
     for c in cases[:3]:
